@@ -341,7 +341,7 @@ func Run(r *mc.Run) {
 
 func Replay(scenario string, raw json.RawMessage) []*mc.Violation {
 	var in In
-	if err := json.Unmarshal(raw, &in); err != nil {
+	if err := mc.UnmarshalInput(raw, &in); err != nil {
 		return nil
 	}
 	if v := checkPair(scenario, in); v != nil {
